@@ -30,7 +30,9 @@ incoming edges and the node deleted are `last`.
 INDEX-PRUNE - membership of an RList is key presence in the reverse map: every
 method that removes a position from a list of the map deletes the key when
 the list becomes empty.
-FLATTEN-FIXPOINT - flatten ends on a re-scan of self._nodes that finds no
+SWAP-SEM - remove_node interpreted over the position classes {removed, last,
+other} on all 528 abstract graphs (sa/symgraph.py) yields the rows of the
+mathematical removal. FLATTEN-FIXPOINT - flatten ends on a re-scan of self._nodes that finds no
 graph-node; a visited-set skip of an "already grafted" graph is
 recognised-wrong (a later graft brings a shared nested graph back).
 Not decided (value-level algorithms): topological sort, transitive reduction
@@ -54,6 +56,7 @@ def check(ctx):
     ctx.run(depgraph.check_pair)
     ctx.run(depgraph.check_pair_shift)
     ctx.run(depgraph.check_swap_table)
+    ctx.run(depgraph.check_swap_sem)
     ctx.run(depgraph.check_index_prune)
     ctx.run(depgraph.check_flatten_fixpoint)
     ctx.stats['functions_analysed'] = analyzer.functions_analysed
@@ -290,5 +293,57 @@ def variants(program):
             'return self._index[key][0]')
         return True
     add('twin-lookup-guarded-by-membership', 'twin', RLM, get_index_guarded)
+
+    def _remove_node_in_place(body):
+        def editor(tree):
+            fun = find_func(tree, 'DepGraph.remove_node')
+            start = next(i for i, s_ in enumerate(fun.body)
+                         if isinstance(s_, ast.Assign) and
+                         txt(s_.targets[0]) == 'tmp')
+            end = next(i for i, s_ in enumerate(fun.body)
+                       if isinstance(s_, ast.Delete) and
+                       'self._nodes' in txt(s_))
+            fun.body[start:end] = parse_stmts(body)
+            return True
+        return editor
+    add('seed-incoming-edges-patched-in-the-wrong-order', 'mutant', DGM,
+        _remove_node_in_place(
+            'moved = self._edges[last]\n'
+            'del self._edges[last]\n'
+            'if i != last:\n'
+            '    self._edges[i] = moved\n'
+            'for vals in self._edges.values():\n'
+            '    if last in vals:\n'
+            '        vals.remove(last)\n'
+            '        vals.add(i)\n'
+            '    vals.discard(i)'), {'SWAP-SEM'},
+        note='seed C01-r3-1: every edge into the node that was moved to '
+             'slot i is discarded')
+    add('seed-row-of-the-moved-node-not-renumbered', 'mutant', DGM,
+        _remove_node_in_place(
+            'del self._edges[i]\n'
+            'moved = self._edges.pop(last, None)\n'
+            'for vals in self._edges.values():\n'
+            '    vals.discard(i)\n'
+            '    if last in vals:\n'
+            '        vals.remove(last)\n'
+            '        vals.add(i)\n'
+            'if moved is not None:\n'
+            '    self._edges[i] = moved'), {'SWAP-SEM'},
+        note='seed C16-1: the outgoing edges of the moved node keep the old '
+             'numbers')
+    add('twin-remove-node-patched-in-place', 'twin', DGM,
+        _remove_node_in_place(
+            'moved = self._edges[last]\n'
+            'del self._edges[last]\n'
+            'if i != last:\n'
+            '    self._edges[i] = moved\n'
+            'for vals in self._edges.values():\n'
+            '    vals.discard(i)\n'
+            '    if last in vals:\n'
+            '        vals.remove(last)\n'
+            '        vals.add(i)'),
+        note='a correct single-pass rewrite: SWAP-TABLE is undecided, '
+             'SWAP-SEM holds')
 
     return out
